@@ -397,7 +397,11 @@ func (w *World) Prepare(o *Obligation, lemmaMax int) ([]*Term, *prep) {
 	var derived []*Term      // unfold equations and lemma instances
 	unfolded := map[*Term]bool{}
 	lemDone := map[string]bool{}
-	fromUnfold := map[*Term]int{} // apps introduced by unfolding -> depth
+	fromUnfold := map[*Term]int{} // apps introduced by unfolding / lemma instances -> depth
+	trigDepth := 1
+	if hints.TrigDepth > 0 {
+		trigDepth = hints.TrigDepth
+	}
 	maxGen := 1
 	if hints.InstDepth > 0 {
 		maxGen = hints.InstDepth
@@ -489,11 +493,26 @@ func (w *World) Prepare(o *Obligation, lemmaMax int) ([]*Term, *prep) {
 				if lemDone[key] {
 					continue
 				}
+				// triggers fire on applications of depth <= trigDepth only (depth 0 = present in the
+				// obligation itself, depth d+1 = first seen in a fact derived from a depth-d application):
+				// otherwise definitional axioms over a recursive structure would chain for ever
+				if fromUnfold[a] > trigDepth {
+					continue
+				}
 				lemDone[key] = true
 				if t := w.triggerInstance(lem, fn, a); t != nil {
 					derived = append(derived, t)
 					p.usedLem[lem.Name] = true
 					grew = true
+					sub := map[*Term]bool{}
+					collectApps([]*Term{t}, sub)
+					for sa := range sub {
+						if !apps[sa] {
+							if _, ok := fromUnfold[sa]; !ok {
+								fromUnfold[sa] = fromUnfold[a] + 1
+							}
+						}
+					}
 				}
 			}
 		}
